@@ -18,7 +18,7 @@ func init() {
 	register(&Prop{
 		ID:       "C02",
 		Category: "model_checking",
-		Rule: "streams synthesised block by block from a grammar: (A) one dynamic block for every (literal/length shape x distance shape x header encoding) of the catalogue with every symbol sequence of length <=k over the per-code alphabet, bare / padded past the assembly loop's entry conditions / after a 64 KiB+ prefix; (B) the same over the fixed code; " +
+		Rule: "streams synthesised block by block from a grammar: (A) one dynamic block for every (literal/length shape x distance shape x header encoding: plain, run-length coded, never across the literal/distance boundary, and the legal-but-unusual form in which zero runs are continued with repeat code 16) of the catalogue with every symbol sequence of length <=k over the per-code alphabet, bare / padded past the assembly loop's entry conditions / after a 64 KiB+ prefix; (B) the same over the fixed code; " +
 			"(C) stored blocks of length 0,1,2,65535 at all 8 bit offsets; (D) every ordered pair of code shapes in consecutive blocks; (E) 2000 tiny blocks in a row; (F) streams made by compress/flate (levels 0,1,6,9,-2) and by fastgo (accelerated levels) over the data pieces; " +
 			"(H) window-fill straddle: a stored prefix ending j bytes (16 values 0..259) before the decoder's 64 KiB output window fills (65536 and 98304), then 0-2 literals, a match of length {3,4,17,18,257,258} and distance {1,2,3,15,16,17,31,32,33,100,257,258,259,4096,32768} in a non-final fixed or short-code dynamic block (packed literal+length table entries), so that literals, packed entries and copies straddle the fill point; " +
 			"(I) small-distance sweep: every distance 1..64 x 19 lengths around the 16/32-byte vector widths, after `distance` distinct literals and followed by 300 literals (decoded inside the assembly loop); " +
@@ -142,7 +142,7 @@ func (g *streamGen) choose(x *mc.Exec, k int) (stream []byte, name string, ok bo
 		if fam == 0 {
 			ls := g.lits[x.Choose(len(g.lits), "lit-shape")]
 			ds := g.dists[x.Choose(len(g.dists), "dist-shape")]
-			enc := x.Choose(3, "hdr-enc")
+			enc := x.Choose(4, "hdr-enc")
 			// quick tier: the header-encoding dimension is explored with the literal prefix only; symbol sequences use the
 			// run-length coded header (the two dimensions meet only in the header parser)
 			encOnly = !g.cfg.Thorough && enc != synth.EncRepeat
